@@ -27,7 +27,11 @@ Definition dec_sop (code a1 a2 a3 a4 : N) : option sop :=
   match code with
   | 0 => Some (OWrite a1 a2) | 1 => Some (OWriteSlice a1 a2) | 2 => Some (OStore a1 a2)
   | 3 => Some (OCopyFrom a1 a2) | 4 => Some (OReadFrom a1 a2 a3) | 5 => Some (OReadExactFrom a1 a2 a3)
-  | 6 => Some (OReadFromFd a1 a2 a3 (negb (a4 =? 0)))
+  | 6 => if a4 =? 2
+         then (* a read that fails part-way: a3 = first inaccessible region offset (a host page boundary);
+                 the datagram of a1 bytes has to fit the socket buffer *)
+              if (a3 mod 4096 =? 0) && (a1 <=? 60000) && (a3 <=? 1048576) then Some (OReadFromFdFault a1 a2 a3) else None
+         else Some (OReadFromFd a1 a2 a3 (negb (a4 =? 0)))
   | 7 => Some (ORead a1 a2) | 8 => Some (OReadSlice a1 a2) | 9 => Some (OLoad a1 a2)
   | 10 => Some (OCopyTo a1 a2) | 11 => Some (OWriteTo a1 a2) | 12 => Some (OWriteAllTo a1 a2)
   | 13 => Some ORefStore | 14 => Some ORefLoad
@@ -55,7 +59,8 @@ Definition dec_step (l : list N) : option step :=
 Definition kind_of (s : step) : skind :=
   match s with
   | SReset _ | SResetRange _ _ _ => KReset
-  | SAcc _ _ (OReadFromFd _ _ _ true) => KFdError
+  | SAcc _ _ (OReadFromFd cnt _ _ true) => KFdError cnt
+  | SAcc _ _ (OReadFromFdFault cnt _ _) => KFdError cnt
   | _ => KWriteLike end.
 
 Fixpoint dec_regions (n : nat) (l : list tok) : option (list region * list tok) :=
